@@ -17,3 +17,10 @@ package summaries
 // in package dataflow); a position outside the signature is discarded silently.
 
 //@ property C09
+
+//@ func IsSummaryRequired
+//@   property C05 C10
+//@   pure
+//@ func PkgHasSummaries
+//@   property C05 C10
+//@   pure
